@@ -59,7 +59,12 @@ CONSTANTS N,                    \* commits in the universe
           ProvidersAgree,       \* graph-traversal provider implements the documented meaning (= what bitmaps give)
           DeleteDropsPacked,    \* deleting a ref also drops its packed-refs entry
           CgHonoursShallow,     \* a shallow boundary is tested before the commit-graph is asked for parents
-          Focus                 \* "all" | "refs" (only commits as loose objects, ref updates and pack-refs)
+          BitmapHonoursShallow, \* with a shallow boundary the bitmap provider traverses instead of using bitmaps
+          CgOctopusOk,          \* the commit-graph writer keeps all parents of every merge with three or more
+          MaxParents,           \* parents per commit
+          Focus                 \* "all", or a family of histories explored deeper with few actions:
+                                \* "refs" (ref storage), "bmp" (one reader packs and builds bitmaps), "octo"
+                                \* (merges of three parents and commit-graphs)
 
 VARIABLES n,        \* commits created so far: 1..n
           par,      \* [1..N -> SUBSET 1..N]   parents
@@ -155,7 +160,13 @@ MidxLive(i)   == \E p \in midx.packs \cap packs : i \in Objs(p)
 MidxHit(A, i) == "midx" \in A /\ midx.on /\ MidxLists(i) /\ (MidxChecksPack => MidxLive(i))
 \* --- commit-graph: ParentsProvider.get_parents, _collect_ancestors
 CgHit(A, i)   == "cg" \in A /\ cg.on /\ i \in cg.commits /\ (CgChecksStore => Present(i))
-CgPar(i)      == IF cg.closed THEN par[i] ELSE par[i] \cap cg.commits   \* missing parent positions are dropped
+Octopus(i)    == Cardinality(par[i]) >= 3
+Min(S)        == CHOOSE m \in S : \A x \in S : m <= x
+\* missing parent positions are dropped; (defect model) a writer that addresses the extra-edge list wrongly gets
+\* only the first octopus merge of the file right, the others keep their first parent
+CgPar(i)      == LET ps == IF cg.closed THEN par[i] ELSE par[i] \cap cg.commits IN
+                 IF ~CgOctopusOk /\ Octopus(i) /\ (\E j \in cg.commits : j < i /\ Octopus(j)) /\ ps # {}
+                 THEN {Min(ps)} ELSE ps
 \* --- bitmaps: BitmapReachability (falls back to GraphTraversalReachability)
 Usable(A, b)  == /\ "bmp" \in A /\ b.at \in packs
                  /\ BitmapChecksum => b.for = b.at
@@ -197,7 +208,8 @@ W_Misss(v, Hv, W) ==
          { Norm(Walk(v, W, anc, N) \ anc) : anc \in (IF hv = {} THEN {{}} ELSE W_RCs(v, hv, {})) }
 
 \* --- shallow boundaries (fetch --depth): the walks of _collect_ancestors with shallow = Sh.  With a shallow
-\* set the provider always traverses (bitmaps are not consulted), so only the commit-graph can interfere.
+\* set the provider traverses (bitmaps are not consulted; BitmapHonoursShallow), so only the commit-graph can
+\* interfere.  W_MissS is the SET of possible answers (which bitmap is found first is not determined).
 Expands(v, c, Common, Sh) == c \notin Common /\ ~(c \in Sh /\ (CgHonoursShallow \/ ~CgHit(v.A, c)))
 RECURSIVE WalkS(_, _, _, _, _)
 WalkS(v, S, Common, Sh, k) ==
@@ -205,10 +217,12 @@ WalkS(v, S, Common, Sh, k) ==
     ELSE WalkS(v, S \cup UNION {v.par[c] : c \in {x \in S : Expands(v, x, Common, Sh)}}, Common, Sh, k - 1)
 W_Cut(v, W, X, Sh) == Norm(WalkS(v, W, X, Sh, N) \ X)
 W_MissS(v, Hv, W, Sh) ==
-    IF ~(W \subseteq PresentS) THEN MISSING
+    IF ~(W \subseteq PresentS) THEN {MISSING}
     ELSE LET hv == Hv \cap PresentS
-             anc == IF hv = {} THEN {} ELSE WalkS(v, hv, {}, Sh, N)
-         IN  Norm(WalkS(v, W, anc, Sh, N) \ anc)
+             ancs == IF hv = {} THEN {{}}
+                     ELSE IF BitmapHonoursShallow \/ BmpFor(v, hv, {}) = {} THEN {WalkS(v, hv, {}, Sh, N)}
+                     ELSE {Bmp_R(b, hv, {}) : b \in BmpFor(v, hv, {})}
+         IN  {Norm(WalkS(v, W, anc, Sh, N) \ anc) : anc \in ancs}
 
 -----------------------------------------------------------------------------
 (* the property *)
@@ -219,7 +233,7 @@ Same(v, u) ==
           /\ \A i \in Commits : W_Par(v, i) = W_Par(u, i)
           /\ \A i, j \in Commits : i < j => W_Mb(v, i, j) = W_Mb(u, i, j)
           /\ \A H \in Heads : W_Anc(v, H) = W_Anc(u, H)
-    /\ (v.par # u.par \/ ("cg" \in v.A /\ cg.on)) =>
+    /\ (v.par # u.par \/ ("cg" \in v.A /\ cg.on) \/ v.bm # u.bm) =>
           \A W \in Singles, X \in Excl, Sh \in Singles : /\ W_Cut(v, W, X, Sh) = W_Cut(u, W, X, Sh)
                                                          /\ W_MissS(v, X, W, Sh) = W_MissS(u, X, W, Sh)
     /\ (v.par # u.par \/ v.bm # u.bm) =>
@@ -240,7 +254,7 @@ Exact ==
                              /\ W_ROs(u, H, X) = {T_RO(ta, H, X)}
                              /\ W_Misss(u, X, H) = {T_Miss(ta, X, H)}
     /\ \A W \in Singles, X \in Excl, Sh \in Singles : /\ W_Cut(u, W, X, Sh) = T_Cut(W, X, Sh)
-                                                   /\ W_MissS(u, X, W, Sh) = T_MissS(X, W, Sh)
+                                                   /\ W_MissS(u, X, W, Sh) = {T_MissS(X, W, Sh)}
 \* the storage of refs (loose file shadowing a packed entry) always yields THE value
 RefsTransparent == \A r \in Refs : RefVal(r) = tref[r]
 \* an entry that disagrees with the data it indexes contributes nothing
@@ -264,11 +278,18 @@ Init == /\ n = 0 /\ par = [i \in 1..N |-> {}] /\ loose = {} /\ packs = {}
 acc == <<cg, midx, bmp, idxv>>
 \* behaviours are explored up to MaxDepth steps (0 = no bound: trace validation)
 Lvl == MaxDepth = 0 \/ TLCGet("level") <= MaxDepth
+FocusActs == CASE Focus = "refs" -> {"Commit", "SetRef", "DeleteRef", "PackRefs"}
+               [] Focus = "bmp"  -> {"Commit", "PackLoose", "RepackD", "BuildBmp"}
+               [] Focus = "octo" -> {"Commit", "BuildCg"}
+               [] OTHER -> {}
+Allowed(a) == Focus = "all" \/ a \in FocusActs
 Full == Focus = "all"
 
 \* ---- history growth.  how = "loose" (add_object) | "pack" (add_objects: arrives as a pack of its own)
 Commit(P, r, how) ==
-    /\ Lvl /\ act' = <<"Commit", P, r, how>> /\ n < N /\ Cardinality(P) <= 2 /\ P \subseteq PresentS
+    /\ Lvl /\ act' = <<"Commit", P, r, how>> /\ n < N /\ Cardinality(P) <= MaxParents /\ P \subseteq PresentS
+    /\ Focus = "octo" => r = "a" /\ Cardinality(P) \in {0, 3}
+    /\ Focus = "bmp" => Cardinality(P) <= 1
     /\ how = "pack" => Full /\ Cardinality(packs) < MaxPacks
     /\ n' = n + 1 /\ par' = [par EXCEPT ![n + 1] = P]
     /\ IF how = "loose" THEN loose' = loose \cup {n + 1} /\ UNCHANGED packs
@@ -276,34 +297,34 @@ Commit(P, r, how) ==
     /\ tref' = [tref EXCEPT ![r] = n + 1] /\ lref' = [lref EXCEPT ![r] = n + 1]
     /\ UNCHANGED <<pref, acc>>
 SetRef(r, c) ==
-    /\ Lvl /\ act' = <<"SetRef", r, c>> /\ c \in PresentS /\ tref[r] # c
+    /\ Lvl /\ Allowed("SetRef") /\ act' = <<"SetRef", r, c>> /\ c \in PresentS /\ tref[r] # c
     /\ tref' = [tref EXCEPT ![r] = c] /\ lref' = [lref EXCEPT ![r] = c]
     /\ UNCHANGED <<n, par, loose, packs, pref, acc>>
 DeleteRef(r) ==
-    /\ Lvl /\ act' = <<"DeleteRef", r>> /\ tref[r] # 0
+    /\ Lvl /\ Allowed("DeleteRef") /\ act' = <<"DeleteRef", r>> /\ tref[r] # 0
     /\ tref' = [tref EXCEPT ![r] = 0] /\ lref' = [lref EXCEPT ![r] = 0]
     /\ pref' = IF DeleteDropsPacked THEN [pref EXCEPT ![r] = 0] ELSE pref
     /\ UNCHANGED <<n, par, loose, packs, acc>>
 
 \* ---- maintenance
 PackRefs(w) ==
-    /\ Lvl /\ act' = <<"PackRefs", w>> /\ \E r \in Refs : lref[r] # 0
+    /\ Lvl /\ Allowed("PackRefs") /\ act' = <<"PackRefs", w>> /\ \E r \in Refs : lref[r] # 0
     /\ pref' = [r \in Refs |-> RefVal(r)] /\ lref' = [r \in Refs |-> 0]
     /\ UNCHANGED <<n, par, loose, packs, tref, acc>>
 PackLoose ==
-    /\ Lvl /\ Full /\ act' = <<"PackLoose">> /\ loose # {} /\ Cardinality(packs) < MaxPacks
+    /\ Lvl /\ Allowed("PackLoose") /\ act' = <<"PackLoose">> /\ loose # {} /\ Cardinality(packs) < MaxPacks
     /\ packs' = packs \cup {<<loose, "d">>} /\ loose' = {}
     /\ UNCHANGED <<n, par, tref, lref, pref, acc>>
 \* dulwich repack(): everything into one pack; accelerator files are left alone (bitmaps of removed packs
 \* stay on disk as orphans and re-attach if a pack of that name comes back)
 RepackD ==
-    /\ Lvl /\ Full /\ act' = <<"RepackD">> /\ PresentS # {} /\ (packs # {<<PresentS, "d">>} \/ loose # {})
+    /\ Lvl /\ Allowed("RepackD") /\ act' = <<"RepackD">> /\ PresentS # {} /\ (packs # {<<PresentS, "d">>} \/ loose # {})
     /\ <<PresentS, "g">> \notin packs          \* (dulwich would keep the git-named twin: not modelled)
     /\ packs' = {<<PresentS, "d">>} /\ loose' = {}
     /\ UNCHANGED <<n, par, tref, lref, pref, acc>>
 \* dulwich garbage_collect(grace_period=None): unreachable objects go, the rest into one pack
 Gc ==
-    /\ Lvl /\ Full /\ act' = <<"Gc">> /\ PresentS # {} /\ (loose # {} \/ packs # {<<Reach, "d">>})
+    /\ Lvl /\ Allowed("Gc") /\ act' = <<"Gc">> /\ PresentS # {} /\ (loose # {} \/ packs # {<<Reach, "d">>})
     /\ <<Reach, "g">> \notin packs             \* (dulwich would keep the git-named twin: not modelled)
     /\ packs' = (IF Reach = {} THEN {} ELSE {<<Reach, "d">>}) /\ loose' = {}
     /\ UNCHANGED <<n, par, tref, lref, pref, acc>>
@@ -311,7 +332,7 @@ Gc ==
 \* loose copies of packed objects pruned; the midx is deleted when it names a pack that existed; bitmaps of the
 \* old packs are deleted; -b writes a bitmap for the new pack
 RepackG(b) ==
-    /\ Lvl /\ Full /\ act' = <<"RepackG", b>> /\ Reach # {}
+    /\ Lvl /\ Allowed("RepackG") /\ act' = <<"RepackG", b>> /\ Reach # {}
     \* (not modelled: a foreign midx that already names the pack git is about to write -- git 2.39 then leaves the
     \* loose copies behind; and git refusing to work because a midx has offsets for other bytes under a pack's name)
     /\ ~(midx.on /\ <<Reach, "g">> \in midx.packs \ packs)
@@ -329,7 +350,7 @@ RepackG(b) ==
 \* mode: "all" dulwich write_commit_graph() (every commit in the store), "reach" from the ref tips
 \* (git commit-graph write --reachable / dulwich refs=tips), "tips" dulwich reachable=False
 BuildCg(w, mode) ==
-    /\ Lvl /\ Full /\ act' = <<"BuildCg", w, mode>> /\ Tips # {} /\ (w = "git" => mode = "reach")
+    /\ Lvl /\ Allowed("BuildCg") /\ act' = <<"BuildCg", w, mode>> /\ Tips # {} /\ (w = "git" => mode = "reach")
     /\ mode = "tips" => ~CgWriterCloses        \* a writer that closes the set makes "tips" the same as "reach"
     /\ LET C == CASE mode = "all" -> PresentS [] mode = "reach" -> Reach [] mode = "tips" -> Tips IN
        cg' = [on |-> TRUE, commits |-> IF CgWriterCloses THEN Anc(C) ELSE C,
@@ -339,41 +360,41 @@ BuildCg(w, mode) ==
 \* dulwich write_midx() indexes the packs present; git multi-pack-index write (2.39) also keeps every pack
 \* named by the midx it finds, whether or not that pack still exists
 BuildMidx(w) ==
-    /\ Lvl /\ Full /\ act' = <<"BuildMidx", w>> /\ packs # {}
+    /\ Lvl /\ Allowed("BuildMidx") /\ act' = <<"BuildMidx", w>> /\ packs # {}
     /\ midx' = [on |-> TRUE, packs |-> IF w = "git" /\ midx.on THEN packs \cup midx.packs ELSE packs]
     /\ midx' # midx
     /\ UNCHANGED <<prim, cg, bmp, idxv>>
 \* dulwich generate_pack_bitmaps(refs): every pack without an accepted bitmap gets one for the tips it holds
 BuildBmp ==
-    /\ Lvl /\ Full /\ act' = <<"BuildBmp">> /\ Tips # {} /\ packs # {}
+    /\ Lvl /\ Allowed("BuildBmp") /\ act' = <<"BuildBmp">> /\ Tips # {} /\ packs # {}
     /\ LET ok(p) == \E b \in bmp : b.at = p /\ (BitmapChecksum => b.for = p)
            new == {[at |-> p, for |-> p, sel |-> Tips \cap Objs(p)] : p \in {q \in packs : ~ok(q)}} IN
        /\ new # {}
        /\ bmp' = {b \in bmp : ok(b.at) \/ b.at \notin packs} \cup new
     /\ UNCHANGED <<prim, cg, midx, idxv>>
 Remove(k) ==
-    /\ Lvl /\ Full /\ act' = <<"Remove", k>>
+    /\ Lvl /\ Allowed("Remove") /\ act' = <<"Remove", k>>
     /\ \/ k = "cg" /\ cg.on /\ cg' = NoCg /\ UNCHANGED <<midx, bmp>>
        \/ k = "midx" /\ midx.on /\ midx' = NoMidx /\ UNCHANGED <<cg, bmp>>
        \/ k = "bmp" /\ bmp # {} /\ bmp' = {} /\ UNCHANGED <<cg, midx>>
     /\ UNCHANGED <<prim, idxv>>
 \* files built elsewhere: the other repository is a fully packed clone holding every commit ever created
 CopyMidx(wo) ==
-    /\ Lvl /\ Full /\ act' = <<"CopyMidx", wo>> /\ WithCopies /\ n > 0 /\ midx # [on |-> TRUE, packs |-> {<<Commits, wo>>}]
+    /\ Lvl /\ Allowed("CopyMidx") /\ act' = <<"CopyMidx", wo>> /\ WithCopies /\ n > 0 /\ midx # [on |-> TRUE, packs |-> {<<Commits, wo>>}]
     /\ midx' = [on |-> TRUE, packs |-> {<<Commits, wo>>}]
     /\ UNCHANGED <<prim, cg, bmp, idxv>>
 CopyCg ==
-    /\ Lvl /\ Full /\ act' = <<"CopyCg">> /\ WithCopies /\ n > 0 /\ cg # [on |-> TRUE, commits |-> Commits, closed |-> TRUE]
+    /\ Lvl /\ Allowed("CopyCg") /\ act' = <<"CopyCg">> /\ WithCopies /\ n > 0 /\ cg # [on |-> TRUE, commits |-> Commits, closed |-> TRUE]
     /\ cg' = [on |-> TRUE, commits |-> Commits, closed |-> TRUE]
     /\ UNCHANGED <<prim, midx, bmp, idxv>>
 \* the bitmap of pack p renamed to sit next to pack q
 CopyBmp(p, q) ==
-    /\ Lvl /\ Full /\ act' = <<"CopyBmp", p, q>> /\ WithCopies /\ p # q /\ q \in packs
+    /\ Lvl /\ Allowed("CopyBmp") /\ act' = <<"CopyBmp", p, q>> /\ WithCopies /\ p # q /\ q \in packs
     /\ \E b \in bmp : /\ b.at = p /\ b.for = p
                       /\ bmp' = {x \in bmp : x.at # q} \cup {[at |-> q, for |-> p, sel |-> b.sel]}
     /\ UNCHANGED <<prim, cg, midx, idxv>>
 Reindex(w, v) ==
-    /\ Lvl /\ Full /\ act' = <<"Reindex", w, v>> /\ WithIdx /\ packs # {} /\ idxv # v /\ idxv' = v
+    /\ Lvl /\ Allowed("Reindex") /\ act' = <<"Reindex", w, v>> /\ WithIdx /\ packs # {} /\ idxv # v /\ idxv' = v
     /\ UNCHANGED <<prim, cg, midx, bmp>>
 
 Writers == {"dulwich", "git"}
